@@ -6,7 +6,17 @@ WT=$1; PATCH=$2; DEMO=$3
 cd "$WT" || exit 2
 git checkout -q -- sigc++ || exit 2
 [ -d _build ] || cmake -G Ninja -B _build -DCMAKE_BUILD_TYPE=Release >/dev/null
-build_demo() { g++ -std=c++17 -g -fsanitize=address,undefined -fno-sanitize-recover=all -I"$WT" -I"$WT/_build" "$DEMO" sigc++/*.cc sigc++/functors/*.cc -o /tmp/demo_$$ 2>/tmp/demo_$$.err; }
+# demo kinds: x.cc (ASan/UBSan build, default), x.cc + x.expect (compile-only: the exit status is that of the compiler),
+# x.sh (a script that builds and runs by itself), DEMO_SAN=thread (TSan build with -pthread)
+SAN=${DEMO_SAN:-address,undefined}
+EXPECT="${DEMO%.cc}.expect"
+if [ "${DEMO##*.}" = "sh" ]; then
+  build_demo() { printf '#!/bin/bash\ncd "%s" && bash "%s"\n' "$WT" "$DEMO" > /tmp/demo_$$; chmod +x /tmp/demo_$$; }
+elif [ -f "$EXPECT" ]; then
+  build_demo() { printf '#!/bin/bash\ng++ -std=c++17 -fsyntax-only -I"%s" -I"%s/_build" "%s"\n' "$WT" "$WT" "$DEMO" > /tmp/demo_$$; chmod +x /tmp/demo_$$; }
+else
+  build_demo() { g++ -std=c++17 -g -pthread -fsanitize=$SAN -fno-sanitize-recover=all -I"$WT" -I"$WT/_build" "$DEMO" sigc++/*.cc sigc++/functors/*.cc -o /tmp/demo_$$ 2>/tmp/demo_$$.err; }
+fi
 build_demo || { echo "demo does not build on clean tree"; tail -5 /tmp/demo_$$.err; exit 2; }
 /tmp/demo_$$ >/dev/null 2>&1; CLEAN=$?
 git apply "$PATCH" || { echo "patch does not apply"; exit 2; }
